@@ -800,7 +800,7 @@ func (env *SpecEnv) call(c *ast.CallExpr) Val {
 			return intVal(untypedInt, env.expr(c.Args[0]).S)
 		case "ref": // object identity
 			return intVal(untypedInt, refOf(env.expr(c.Args[0])))
-		case "locked": // locked(x): the monitor lock of object x is held (optionally locked(x, "Monitor.name"))
+		case "locked", "wlocked": // locked(x): the monitor lock of object x is held (optionally locked(x, "Monitor.name")); wlocked: held for writing (lock classes)
 			x := env.expr(c.Args[0])
 			if x.K != KAddr {
 				env.fail("locked() needs a pointer")
@@ -828,7 +828,25 @@ func (env *SpecEnv) call(c *ast.CallExpr) Val {
 						}
 					}
 					if len(cks) == 1 {
-						if t, ok := env.st.nbLocks[cks[0]+"@"+x.A.Base]; ok {
+						key := cks[0] + "@" + x.A.Base
+						if id.Name == "wlocked" {
+							key = "W|" + key
+						}
+						if t, ok := env.st.nbLocks[key]; ok {
+							return boolVal(t)
+						}
+						if env.assumeLocks {
+							if env.st.nbLocks == nil {
+								env.st.nbLocks = map[string]string{}
+							}
+							t := fc.sc.fresh("held", "Bool")
+							env.st.nbLocks[key] = t
+							if id.Name == "wlocked" {
+								// a lock held for writing is held
+								if _, ok := env.st.nbLocks[key[2:]]; !ok {
+									env.st.nbLocks[key[2:]] = t
+								}
+							}
 							return boolVal(t)
 						}
 						return boolVal("false")
